@@ -27,6 +27,17 @@ def body(ctx):
     tune_arm(ctx, ex, prog, viol)
     frame_max_to_payload(ctx, ex, prog, viol)
     channel_max_obeyed(ctx, prog)
+    import c16, c17
+    c16.timers_and_timeout_around_the_handshake(ctx, prog)
+    hv = []
+    c17.process_timers(ctx, prog, hv)   # the negotiated heartbeat is obeyed: expiry after 2h of silence, a heartbeat after h idle
+    c17.activity(ctx, prog, hv)
+    for what in sorted({x[0] for x in hv}):
+        test, exp_desc = c17.hb_replay(what)
+        if test is not None:
+            ctx.report(f'heartbeat-{what}', f'{what}: {str([x for x in hv if x[0] == what][0])[:300]}; native timing scenario: {exp_desc}', {'what': what}, test, inject_into='src/io_loop/mod.rs', profiles=('dev',))
+        else:
+            ctx.inconclusive.append(f'C15 heartbeat counterexample without native replay: {what}')
     if ctx.tier == 'thorough' or os.environ.get('VERIF_KANI'):
         kani_cross_check(ctx)
     for v in viol:
